@@ -17,14 +17,10 @@ Record reader := mkReader {
   r_check_on_read : bool
 }.
 
-(* getValueAtOffset: a bare EOF of ReadNextAt is tolerated (value nil) *)
+(* getValueAtOffset: every error of ReadNextAt is passed on - also the bare EOF of an offset at or behind the end of
+   the data file (until fix 3f24fb5 that one was read as the value nil) *)
 Definition get_value_at (r : reader) (off crc : N) (skip_check : bool) : res (option bytes) :=
-  let v :=
-    match read_at (r_cd r) (r_data r) off with
-    | Err EOF => Ok None
-    | x => x
-    end in
-  match v with
+  match read_at (r_cd r) (r_data r) off with
   | Err e => Err e
   | Ok val =>
       if skip_check then Ok val
